@@ -153,15 +153,15 @@ func (h *Transport) Unmarshal(v base.HeaderValue) error {
 		return fmt.Errorf("value provided multiple times (%v)", v)
 	}
 
-	kvs, err := keyValParse(v[0], ';')
+	keys, kvs, err := keyValParseOrdered(v[0], ';')
 	if err != nil {
 		return err
 	}
 
 	profileFound := false
 
-	for k, rv := range kvs {
-		v := rv
+	for _, k := range keys {
+		v := kvs[k]
 
 		switch k {
 		case "RTP/AVP", "RTP/AVP/UDP":
